@@ -159,6 +159,32 @@ Section C15.
                 ExecAsync.s_round st' = S (ExecAsync.s_round st) /\ st_phase s' = PPoll.
   Proof. exact (fun st s m mid s' NC => round_preserves_coupling p WF BF NC fx st s m mid s'). Qed.
 
+  (** The executor's half, first part.  What a poll of C02's executor does to its promise table
+      between two idle calls (Fut/Acct.v, [Acct]: promises appended, none of them done — Go and Batch
+      never send before returning —, channel entries removed) is, through the coupling, the LTS run
+      "[LCreate] every new promise, [LConsume] every entry that disappeared", and the states are
+      coupled again.  The request's promises are a flat program ([flat_async]: every promise a Go or
+      Batch item without parent, the most permissive abstraction of the executor).
+      STILL OPEN for "response == response with all resolvers synchronous" as a theorem: (i) promises
+      the executor stops waiting for ([Acct]'s ghost ids dropped without being received) as
+      [LAbandon], (ii) that after a poll of a still-pending future no awaited promise has an unread
+      result and some awaited promise is empty — [LIdleEnter]'s guard — and that a ready future
+      leaves nothing awaited — [LEnd]'s guard; both need lemmas about C02's [Step] that [Acct] does
+      not provide. *)
+  Theorem C15_poll_is_creates_and_consumes : forall st st' s m new,
+    flat_async p ->
+    K st s -> Inv p s -> Sim p s m -> st_phase s = PPoll ->
+    ExecAsync.s_proms st' = ExecAsync.s_proms st ++ new ->
+    (forall k pr, nth_error new k = Some pr ->
+       ExecAsync.p_id pr = length (ExecAsync.s_proms st) + k /\ ExecAsync.p_done pr = false) ->
+    (forall x, In x (ExecAsync.s_chans st') -> In x (ExecAsync.s_chans st)) ->
+    length (ExecAsync.s_proms st') <= length (p_items p) ->
+    exists s' m',
+      run fx p s (map LCreate (seq (length (ExecAsync.s_proms st)) (length new)) ++
+                  map LConsume (taken_ids st st')) = Some s' /\
+      K st' s' /\ Inv p s' /\ Sim p s' m' /\ st_phase s' = PPoll.
+  Proof. exact (fun st st' s m new FL => poll_is_creates_and_consumes p WF BF fx FL st st' s m new). Qed.
+
   (** With chaining a round may fill only inner promises (see the refutation below); the executor
       then calls the handler again, and altogether never more often than the request has promises. *)
   Theorem C15_idle_rounds_bounded : forall tr s,
@@ -311,6 +337,7 @@ Print Assumptions C15_idle_round_fulfils.
 Print Assumptions C15_idle_round_fair_unchained.
 Print Assumptions C15_idle_round_deliveries_outstanding.
 Print Assumptions C15_idle_round_is_C02_idle_transition.
+Print Assumptions C15_poll_is_creates_and_consumes.
 Print Assumptions C15_idle_rounds_bounded.
 Print Assumptions C15_round_fairness_refuted_with_chaining.
 Print Assumptions C15_handler_record_is_fair_scheduler.
